@@ -30,6 +30,10 @@ def obligations(tier):
                       funcs=(SY + "BPMEvents._index_of_proximal_event",), bounds=f"{kb} tempo events with symbolic ticks, every hint"))
     if tier == "thorough":
         obs.append(Ob("C01.long_map.timestamp.K18", "CH", "harness.h_big", "timestamp_big", 2400, {"VF_KB": 18}, funcs=(SY + "BPMEvents.timestamp_at_tick",)))
+    obs.append(Ob("C01.kernel_sequence", "CH", "harness.h_extra", "kernel_sequence", 300, funcs=(TK + "seconds_from_ticks_at_bpm (real, native)",),
+                  bounds="the real kernel twice in a row on solver-chosen arguments from 10 cases (same tempo / other resolution, inexact thousandths, extremes): each result within 2^-50 of the exact value"))
+    obs.append(Ob("C01.bpm_event_dataflow.uf", "CH", "harness.h_extra", "bpm_event_dataflow_uf", 300, funcs=(SY + "BPMEvent.from_parsed_data",),
+                  bounds="arbitrary clock value for the segment (0 us included): next stamp = previous stamp + exactly that"))
     obs.append(Ob("C01.time_add", "CH", "harness.h_extra", "time_add_unit", 300, funcs=(TM + "add",),
                   bounds="6 representative stamps (incl. several days) x 8 offsets x float/timedelta form: exact timedelta addition"))
     obs.append(Ob("C01.anchors_ignored", "CH", "harness.h_extra", "anchors_do_not_move_time", 600, funcs=(SY + "SyncTrack.from_chart_lines",),
